@@ -199,7 +199,9 @@ pub async fn run(cx: &mut Ctx) {
                                 Stmt::Select(q) if !q.order.is_empty() => {
                                     // sequence on the ORDER BY keys (positions in the output)
                                     let (def, _) = &model.tables[&q.table];
-                                    let outcols: Vec<String> = if q.cols.is_empty() {
+                                    let outcols: Vec<String> = if let Some(g) = &q.group_by {
+                                        vec![g.clone()]
+                                    } else if q.cols.is_empty() {
                                         def.cols.iter().map(|c| c.name.clone()).collect()
                                     } else {
                                         q.cols.clone()
@@ -829,7 +831,11 @@ async fn check_order(
     let keys: Vec<(usize, bool)> = q
         .order
         .iter()
-        .map(|k| (def.col_idx(&k.col).unwrap(), k.desc))
+        .map(|k| match &q.group_by {
+            // `SELECT g, count(*) .. GROUP BY g ORDER BY g`: the key is output column 0
+            Some(_) => (0, k.desc),
+            None => (def.col_idx(&k.col).unwrap(), k.desc),
+        })
         .collect();
 
     if !q.order.is_empty() {
